@@ -1,9 +1,399 @@
-import SynthVerif.Model.Adsr
-import SynthVerif.Model.Lfo
-import SynthVerif.Model.Quantizer
-import SynthVerif.Model.Midi
-import SynthVerif.Model.Glide
-import SynthVerif.Model.Ribbon
+import SynthVerif.Props.Interp
+/-!
+# C10 — LFO waveforms have the documented range, shape and phase relations
+
+For every phase-counter value `acc < 2^24` (`phase = acc / 2^24`):
+* `ramp_exact`, `upSaw_exact`: up-saw = 2·phase − 1 *exactly* (no rounding error); `downSaw_neg`: down-saw is its
+  exact negation;
+* `square_spec`: +1 iff `acc < 2^23`, else −1;
+* `triangle_exact`: the exact piecewise-linear wave 4p / 2−4p / 4p−4, hence 0, +1, −1 at phase 0, ¼, ¾;
+* `sine_range`: −1 ≤ sine ≤ 1, by op-monotonicity in the in-cell fraction and a kernel evaluation of all 1024
+  table cells (the table is regenerated from the compiled crate on every run);
+* `shapes_in_range`: all five shapes lie in [−1, +1];
+* `reachable_acc_lt`: every history of tick / set_frequency / set_phase / reset keeps `acc < 2^24`.
+`get` is a function of the state alone and returns no state: reading one shape cannot disturb another.
+-/
 namespace C10
-theorem placeholder_to_be_replaced : True := trivial
+open F32
+
+theorem lfo_bits : Gen.lfoTotalBits = 24 ∧ Gen.lfoIndexBits = 10 ∧ Gen.sineLutSize = 1024 := by decide
+
+/-- an oscillator state with the generated geometry and a phase counter inside its 24 bits -/
+structure Ok (l : Lfo) : Prop where
+  tb : l.pa.totalBits = 24
+  ib : l.pa.indexBits = 10
+  acc : l.pa.acc < 2 ^ 24
+
+private theorem two_val : Lfo.two.val = 2 ∧ Lfo.two.isFin = true := ⟨rfl, rfl⟩
+
+/-- phase as a rational -/
+def phase (l : Lfo) : ℚ := (l.pa.acc : ℚ) / 2 ^ 24
+
+theorem phase_range (l : Lfo) (h : Ok l) : 0 ≤ phase l ∧ phase l < 1 := by
+  unfold phase
+  constructor
+  · positivity
+  · rw [div_lt_one (by positivity)]; exact_mod_cast h.acc
+
+/-- scaling the ramp by 2 or 4 is exact -/
+private theorem ramp_scaled (l : Lfo) (h : Ok l) (c : F32) (k : ℕ) (hk : k ≤ 2) (hc : c = .fin (2 ^ k) false) :
+    (mul l.pa.ramp c).isFin = true ∧ (mul l.pa.ramp c).val = (l.pa.acc : ℚ) / 2 ^ (24 - k) := by
+  obtain ⟨r1, r2⟩ := PhaseAcc.ramp_exact l.pa h.tb h.acc
+  subst hc
+  have hacc : (l.pa.acc : ℚ) < 2 ^ 24 := by exact_mod_cast h.acc
+  have e : (l.pa.acc : ℚ) / 2 ^ 24 * 2 ^ k = (l.pa.acc : ℚ) / 2 ^ (24 - k) := by
+    have : (2:ℚ) ^ 24 = 2 ^ (24 - k) * 2 ^ k := by rw [← pow_add]; congr 1; omega
+    rw [this]; field_simp
+  have hrep : Rep ((l.pa.acc : ℚ) / 2 ^ (24 - k)) := by
+    have := rep_div_pow2 (m := (l.pa.acc : ℤ)) (by rw [abs_of_nonneg (by positivity)]; exact_mod_cast h.acc) (24 - k) (by omega)
+    simpa using this
+  have hb : |l.pa.ramp.val * (F32.fin (2 ^ k) false).val| ≤ 2 ^ (127:ℤ) := by
+    rw [r2, val_fin, e, abs_of_nonneg (by positivity)]
+    calc (l.pa.acc : ℚ) / 2 ^ (24 - k) ≤ l.pa.acc := div_le_self (by positivity) (one_le_pow₀ (by norm_num))
+      _ ≤ 2 ^ 24 := le_of_lt hacc
+      _ ≤ 2 ^ (127:ℤ) := by norm_num
+  obtain ⟨m1, m2⟩ := val_mul r1 (isFin_fin _ _) hb
+  rw [r2, val_fin, e, rnd_rep hrep] at m2
+  exact ⟨m1, m2⟩
+
+private theorem ramp2 (l : Lfo) (h : Ok l) :
+    (mul l.pa.ramp Lfo.two).isFin = true ∧ (mul l.pa.ramp Lfo.two).val = (l.pa.acc : ℚ) / 8388608 := by
+  have := ramp_scaled l h Lfo.two 1 (by norm_num) (by simp [Lfo.two])
+  norm_num at this; exact this
+
+private theorem ramp4 (l : Lfo) (h : Ok l) :
+    (mul l.pa.ramp Lfo.four).isFin = true ∧ (mul l.pa.ramp Lfo.four).val = (l.pa.acc : ℚ) / 4194304 := by
+  have := ramp_scaled l h Lfo.four 2 (by norm_num) (by simp [Lfo.four]; norm_num)
+  norm_num at this; exact this
+
+private theorem acc_bounds (l : Lfo) (h : Ok l) : (0:ℚ) ≤ l.pa.acc ∧ (l.pa.acc : ℚ) < 16777216 := by
+  refine ⟨by positivity, ?_⟩
+  have := h.acc
+  exact_mod_cast this
+
+/-- **up-saw = 2·phase − 1, exactly** -/
+theorem upSaw_exact (l : Lfo) (h : Ok l) : l.upSaw.isFin = true ∧ l.upSaw.val = 2 * phase l - 1 := by
+  obtain ⟨m1, m2⟩ := ramp2 l h
+  obtain ⟨hnn, hacc⟩ := acc_bounds l h
+  have e : (l.pa.acc : ℚ) / 8388608 - 1 = (((l.pa.acc : ℤ) - 2 ^ 23 : ℤ) : ℚ) / 2 ^ 23 := by
+    push_cast; norm_num; ring
+  have hrep : Rep ((l.pa.acc : ℚ) / 8388608 - 1) := by
+    rw [e]
+    apply rep_div_pow2 _ 23 (by norm_num)
+    have := h.acc
+    rw [abs_lt]; constructor <;> omega
+  have o1 : one.val = 1 := rfl
+  have hb : |(mul l.pa.ramp Lfo.two).val - one.val| ≤ 2 ^ (127:ℤ) := by
+    rw [m2, o1]
+    have : |(l.pa.acc : ℚ) / 8388608 - 1| ≤ 1 := by
+      rw [abs_le]; constructor
+      · have : (0:ℚ) ≤ (l.pa.acc : ℚ) / 8388608 := by positivity
+        linarith
+      · have : (l.pa.acc : ℚ) / 8388608 ≤ 2 := by rw [div_le_iff₀ (by norm_num)]; linarith
+        linarith
+    exact le_trans this (by norm_num)
+  obtain ⟨s1, s2⟩ := val_sub m1 (by rfl : one.isFin = true) hb
+  rw [m2, o1, rnd_rep hrep] at s2
+  refine ⟨s1, ?_⟩
+  unfold Lfo.upSaw
+  rw [s2]; unfold phase; norm_num; ring
+
+/-- the down-saw is the exact negation of the up-saw (as a binary32 value, sign of zero included) -/
+theorem downSaw_neg (l : Lfo) : l.get .downSaw = neg (l.get .upSaw) := rfl
+
+theorem neg_val (x : F32) : (neg x).val = -x.val ∧ (neg x).isFin = x.isFin := by
+  cases x <;> simp [neg, val, isFin]
+
+/-- **square**: +1 in the first half cycle, −1 in the second -/
+theorem square_spec (l : Lfo) (h : Ok l) :
+    l.get .square = (if l.pa.acc < 2 ^ 23 then one else .fin (-1) false) := by
+  obtain ⟨r1, r2⟩ := PhaseAcc.ramp_exact l.pa h.tb h.acc
+  obtain ⟨hnn, hacc⟩ := acc_bounds l h
+  simp only [Lfo.get]
+  rw [lt_val r1 (by rfl), r2]
+  have hv : Lfo.half.val = 1 / 2 := rfl
+  rw [hv]
+  have h24 : (2:ℚ) ^ 24 = 16777216 := by norm_num
+  have hiff : ((l.pa.acc : ℚ) / 2 ^ 24 < 1 / 2) ↔ l.pa.acc < 2 ^ 23 := by
+    rw [h24, div_lt_iff₀ (by norm_num)]
+    constructor
+    · intro hh
+      have : (l.pa.acc : ℚ) < 8388608 := by linarith
+      have : l.pa.acc < 8388608 := by exact_mod_cast this
+      omega
+    · intro hh
+      have : l.pa.acc < 8388608 := by omega
+      have : (l.pa.acc : ℚ) < 8388608 := by exact_mod_cast this
+      linarith
+  have hd : decide ((l.pa.acc : ℚ) / 2 ^ 24 < 1 / 2) = decide (l.pa.acc < 2 ^ 23) := decide_eq_decide.mpr hiff
+  rw [hd]
+  by_cases hc : l.pa.acc < 2 ^ 23 <;> simp [hc]
+
+/-- **triangle**: the exact piecewise-linear wave in phase with the sine -/
+theorem triangle_exact (l : Lfo) (h : Ok l) :
+    (l.get .triangle).isFin = true ∧
+    (l.get .triangle).val =
+      (if l.pa.acc < 2 ^ 22 then 4 * phase l else if l.pa.acc < 3 * 2 ^ 22 then 2 - 4 * phase l else 4 * phase l - 4) := by
+  obtain ⟨m1, m2⟩ := ramp4 l h
+  obtain ⟨hnn, hacc⟩ := acc_bounds l h
+  have e4 : (l.pa.acc : ℚ) / 4194304 = 4 * phase l := by unfold phase; norm_num; ring
+  have i1 : ((l.pa.acc : ℚ) / 4194304 < 1) ↔ l.pa.acc < 2 ^ 22 := by
+    rw [div_lt_one (by norm_num)]
+    exact ⟨fun hh => by exact_mod_cast hh, fun hh => by exact_mod_cast hh⟩
+  have i3 : ((l.pa.acc : ℚ) / 4194304 < 3) ↔ l.pa.acc < 3 * 2 ^ 22 := by
+    rw [div_lt_iff₀ (by norm_num)]
+    constructor
+    · intro hh; have : (l.pa.acc : ℚ) < 12582912 := by linarith
+      exact_mod_cast this
+    · intro hh; have : (l.pa.acc : ℚ) < 12582912 := by exact_mod_cast hh
+      linarith
+  have q1 : (0:ℚ) ≤ (l.pa.acc : ℚ) / 4194304 := by positivity
+  have q2 : (l.pa.acc : ℚ) / 4194304 ≤ 4 := by rw [div_le_iff₀ (by norm_num)]; linarith
+  simp only [Lfo.get]
+  rw [lt_val m1 (by rfl), lt_val m1 (by rfl), m2]
+  have o1 : one.val = 1 := rfl
+  have o3 : Lfo.three.val = 3 := rfl
+  have o2 : Lfo.two.val = 2 := rfl
+  have o4 : Lfo.four.val = 4 := rfl
+  have hd1 : decide ((l.pa.acc : ℚ) / 4194304 < 1) = decide (l.pa.acc < 2 ^ 22) := decide_eq_decide.mpr i1
+  have hd3 : decide ((l.pa.acc : ℚ) / 4194304 < 3) = decide (l.pa.acc < 3 * 2 ^ 22) := decide_eq_decide.mpr i3
+  rw [o1, o3, hd1, hd3]
+  by_cases c1 : l.pa.acc < 2 ^ 22
+  · simp only [c1, decide_true, ↓reduceIte]
+    exact ⟨m1, by rw [m2, e4]⟩
+  · simp only [c1, decide_false, Bool.false_eq_true, ↓reduceIte]
+    by_cases c3 : l.pa.acc < 3 * 2 ^ 22
+    · simp only [c3, decide_true, ↓reduceIte]
+      have e : (2:ℚ) - (l.pa.acc : ℚ) / 4194304 = (((2 ^ 23 : ℤ) - (l.pa.acc : ℤ) : ℤ) : ℚ) / 2 ^ 22 := by
+        push_cast; norm_num; ring
+      have hrep : Rep ((2:ℚ) - (l.pa.acc : ℚ) / 4194304) := by
+        rw [e]; apply rep_div_pow2 _ 22 (by norm_num)
+        rw [abs_lt]; constructor <;> omega
+      have hb : |Lfo.two.val - (mul l.pa.ramp Lfo.four).val| ≤ 2 ^ (127:ℤ) := by
+        rw [m2, o2]
+        have : |(2:ℚ) - (l.pa.acc : ℚ) / 4194304| ≤ 2 := by rw [abs_le]; constructor <;> linarith
+        exact le_trans this (by norm_num)
+      obtain ⟨s1, s2⟩ := val_sub (by rfl : Lfo.two.isFin = true) m1 hb
+      rw [m2, o2, rnd_rep hrep] at s2
+      exact ⟨s1, by rw [s2, e4]⟩
+    · simp only [c3, decide_false, Bool.false_eq_true, ↓reduceIte]
+      have e : (l.pa.acc : ℚ) / 4194304 - 4 = (((l.pa.acc : ℤ) - (2 ^ 24 : ℤ) : ℤ) : ℚ) / 2 ^ 22 := by
+        push_cast; norm_num; ring
+      have hrep : Rep ((l.pa.acc : ℚ) / 4194304 - 4) := by
+        rw [e]; apply rep_div_pow2 _ 22 (by norm_num)
+        have := h.acc
+        rw [abs_lt]; constructor <;> omega
+      have hb : |(mul l.pa.ramp Lfo.four).val - Lfo.four.val| ≤ 2 ^ (127:ℤ) := by
+        rw [m2, o4]
+        have : |(l.pa.acc : ℚ) / 4194304 - 4| ≤ 4 := by rw [abs_le]; constructor <;> linarith
+        exact le_trans this (by norm_num)
+      obtain ⟨s1, s2⟩ := val_sub m1 (by rfl : Lfo.four.isFin = true) hb
+      rw [m2, o4, rnd_rep hrep] at s2
+      exact ⟨s1, by rw [s2, e4]⟩
+
+/-! ### sine: range by cell end points -/
+
+/-- what the kernel checks for one table cell `(T[i], T[i+1])`: both entries are finite and within [-1, 1], and so is
+the interpolated value at the far end of the cell (fraction 1) -/
+def cellOk (b0 b1 : ℕ) : Bool :=
+  (ofBits b0).isFin && (ofBits b1).isFin &&
+  decide (-1 ≤ (ofBits b0).val) && decide ((ofBits b0).val ≤ 1) &&
+  decide (-1 ≤ (ofBits b1).val) && decide ((ofBits b1).val ≤ 1) &&
+  decide (-1 ≤ interpQ (ofBits b0).val (ofBits b1).val 1) && decide (interpQ (ofBits b0).val (ofBits b1).val 1 ≤ 1)
+
+theorem sine_len : Gen.sineBitsL.length = 1024 := by decide +kernel
+theorem sine_cells : allPairs cellOk Gen.sineBitsL = true := by decide +kernel
+theorem sine_wrap_cell : cellOk (Gen.sineBitsL.getD 1023 0) (Gen.sineBitsL.getD 0 0) = true := by decide +kernel
+
+theorem sineAt_eq (i : ℕ) : sineAt i = ofBits (Gen.sineBitsL.getD i 0) := by
+  simp [sineAt, Gen.sineBits]
+
+/-- every cell of the sine table, including the one that wraps from the last entry to the first -/
+theorem sine_cell_ok (i : ℕ) (hi : i < 1024) :
+    cellOk (Gen.sineBitsL.getD i 0) (Gen.sineBitsL.getD ((i + 1) % 1024) 0) = true := by
+  by_cases h : i + 1 < 1024
+  · rw [Nat.mod_eq_of_lt h]
+    exact allPairs_get cellOk Gen.sineBitsL sine_cells i (by rw [sine_len]; exact h)
+  · have : i = 1023 := by omega
+    subst this
+    exact sine_wrap_cell
+
+/-- **sine range**: −1 ≤ sine ≤ 1 at every phase -/
+theorem sine_range (l : Lfo) (h : Ok l) :
+    (l.get .sine).isFin = true ∧ -1 ≤ (l.get .sine).val ∧ (l.get .sine).val ≤ 1 := by
+  have hi := PhaseAcc.index_lt l.pa h.tb h.ib h.acc
+  obtain ⟨f1, f2⟩ := PhaseAcc.fraction_exact l.pa h.tb h.ib
+  have hc := sine_cell_ok l.pa.index hi
+  simp only [cellOk, Bool.and_eq_true, decide_eq_true_eq] at hc
+  obtain ⟨⟨⟨⟨⟨⟨⟨c1, c2⟩, c3⟩, c4⟩, c5⟩, c6⟩, c7⟩, c8⟩ := hc
+  have hf0 : 0 ≤ l.pa.fraction.val := by rw [f2]; positivity
+  have hf1 : l.pa.fraction.val ≤ 1 := by
+    rw [f2, div_le_one (by positivity)]
+    have : l.pa.acc % 2 ^ 14 < 2 ^ 14 := Nat.mod_lt _ (by norm_num)
+    exact_mod_cast le_of_lt this
+  simp only [Lfo.get, lfo_bits.2.2, sineAt_eq]
+  set y0 := ofBits (Gen.sineBitsL.getD l.pa.index 0)
+  set y1 := ofBits (Gen.sineBitsL.getD ((l.pa.index + 1) % 1024) 0)
+  obtain ⟨v1, v2⟩ := linearInterp_val (y0 := y0) (y1 := y1) (f := l.pa.fraction) c1 c2 f1
+    (by rw [abs_le]; constructor <;> linarith) (by rw [abs_le]; constructor <;> linarith) hf0 hf1
+  have hb := interpQ_between (y0 := y0.val) (y1 := y1.val) (f := l.pa.fraction.val) (ofBits_rnd _) hf0 hf1
+  refine ⟨v1, ?_, ?_⟩
+  · rw [v2]; exact le_trans (le_min c3 c7) hb.1
+  · rw [v2]; exact le_trans hb.2 (max_le c4 c8)
+
+theorem phase_lt (l : Lfo) (n : ℕ) (h : l.pa.acc < n) : phase l < (n:ℚ) / 16777216 := by
+  unfold phase
+  have : (l.pa.acc : ℚ) < n := by exact_mod_cast h
+  have h24 : (2:ℚ) ^ 24 = 16777216 := by norm_num
+  rw [h24, div_lt_div_iff_of_pos_right (by norm_num)]; exact this
+
+theorem phase_ge (l : Lfo) (n : ℕ) (h : n ≤ l.pa.acc) : (n:ℚ) / 16777216 ≤ phase l := by
+  unfold phase
+  have : (n:ℚ) ≤ l.pa.acc := by exact_mod_cast h
+  have h24 : (2:ℚ) ^ 24 = 16777216 := by norm_num
+  rw [h24, div_le_div_iff_of_pos_right (by norm_num)]; exact this
+
+/-- **all five shapes lie in [−1, +1]** at every phase the oscillator can reach -/
+theorem shapes_in_range (l : Lfo) (h : Ok l) (w : Waveshape) :
+    (l.get w).isFin = true ∧ -1 ≤ (l.get w).val ∧ (l.get w).val ≤ 1 := by
+  obtain ⟨p0, p1⟩ := phase_range l h
+  cases w with
+  | sine => exact sine_range l h
+  | upSaw =>
+    obtain ⟨u1, u2⟩ := upSaw_exact l h
+    exact ⟨u1, by show -1 ≤ l.upSaw.val; rw [u2]; linarith, by show l.upSaw.val ≤ 1; rw [u2]; linarith⟩
+  | downSaw =>
+    obtain ⟨u1, u2⟩ := upSaw_exact l h
+    obtain ⟨n1, n2⟩ := neg_val l.upSaw
+    refine ⟨by show (neg l.upSaw).isFin = true; rw [n2]; exact u1, ?_, ?_⟩
+    · show -1 ≤ (neg l.upSaw).val; rw [n1, u2]; linarith
+    · show (neg l.upSaw).val ≤ 1; rw [n1, u2]; linarith
+  | square =>
+    rw [square_spec l h]; split <;> simp [one]
+  | triangle =>
+    obtain ⟨t1, t2⟩ := triangle_exact l h
+    refine ⟨t1, ?_, ?_⟩ <;> rw [t2]
+    · split
+      · linarith
+      · split
+        · rename_i c3
+          have := phase_lt l (3 * 2 ^ 22) c3
+          norm_num at this; linarith
+        · rename_i c1 c3
+          have := phase_ge l (3 * 2 ^ 22) (not_lt.mp c3)
+          norm_num at this; linarith
+    · split
+      · rename_i c1
+        have := phase_lt l (2 ^ 22) c1
+        norm_num at this; linarith
+      · split
+        · rename_i c1 c3
+          have := phase_ge l (2 ^ 22) (not_lt.mp c1)
+          norm_num at this; linarith
+        · linarith
+
+/-- the three anchor points of the triangle: 0 at phase 0, +1 at 1/4, −1 at 3/4 -/
+theorem triangle_anchors (l : Lfo) (h : Ok l) :
+    (l.pa.acc = 0 → (l.get .triangle).val = 0) ∧ (l.pa.acc = 2 ^ 22 → (l.get .triangle).val = 1) ∧
+    (l.pa.acc = 3 * 2 ^ 22 → (l.get .triangle).val = -1) := by
+  obtain ⟨_, t2⟩ := triangle_exact l h
+  refine ⟨fun h0 => ?_, fun h1 => ?_, fun h3 => ?_⟩ <;> rw [t2] <;> unfold phase
+  · rw [h0]; norm_num
+  · rw [h1]; norm_num
+  · rw [h3]; norm_num
+
+/-! ### every reachable state has its phase counter inside 24 bits -/
+
+inductive Op
+  | tick | setFrequency (f : F32) | setPhase (p : F32) | reset
+
+def runOps (l : Lfo) : List Op → Option Lfo
+  | [] => some l
+  | .tick :: os => match l.tick with | none => none | some l' => runOps l' os
+  | .setFrequency f :: os => runOps (l.setFrequency f) os
+  | .setPhase p :: os => runOps (l.setPhase p) os
+  | .reset :: os => runOps l.reset os
+
+theorem mask24 : ofNat (2 ^ 24 - 1) = .fin 16777215 false := by decide +kernel
+
+/-- `set_phase` always lands inside the 24-bit range, for every f32 argument -/
+theorem setPhase_ok (l : Lfo) (h : Ok l) (p : F32) : Ok (l.setPhase p) := by
+  refine ⟨h.tb, h.ib, ?_⟩
+  show (l.pa.setPhase p).acc < 2 ^ 24
+  simp only [PhaseAcc.setPhase, PhaseAcc.reset, PhaseAcc.mask, h.tb]
+  rw [mask24]
+  -- the argument of `toU32` is NaN (↦ 0) or a finite product ≤ 2^24 - 1
+  generalize (if lt p zero = true then mul p (.fin (-1) false) else p) = ph
+  suffices hle : toU32 (mul (.fin 16777215 false) (fmod ph one)) ≤ 16777215 by omega
+  have hone : one = .fin 1 false := rfl
+  rw [hone]
+  cases ph with
+  | nan => simp [fmod, mul, toU32]
+  | inf s => simp [fmod, mul, toU32]
+  | fin a na =>
+    simp only [fmod]
+    have h1 : ((1:ℚ) == 0) = false := by decide
+    simp only [h1, Bool.false_eq_true, ↓reduceIte]
+    -- r = a - trunc(a) lies in (-1, 1)
+    have hr : a - (truncInt (a / 1) : ℚ) * 1 ≤ 1 ∧ -1 ≤ a - (truncInt (a / 1) : ℚ) * 1 := by
+      simp only [div_one, mul_one, truncInt]
+      split
+      · rename_i hneg
+        have f1 := Int.floor_le (-a)
+        have f2 := Int.lt_floor_add_one (-a)
+        have e : ((-a).floor : ℤ) = ⌊-a⌋ := rfl
+        rw [e]; push_cast
+        constructor <;> linarith
+      · have f1 := Int.floor_le a
+        have f2 := Int.lt_floor_add_one a
+        have e : (a.floor : ℤ) = ⌊a⌋ := rfl
+        rw [e]
+        constructor <;> linarith
+    split
+    · rw [mul_fin]
+      exact toU32_round_le _ _ 16777215 (by norm_num) (by norm_num) (by norm_num)
+    · rw [mul_fin]
+      apply toU32_round_le _ _ 16777215 _ _ (by norm_num)
+      · have := hr.1; push_cast; nlinarith
+      · have := hr.2
+        have : -(16777215:ℚ) ≤ 16777215 * (a - (truncInt (a / 1) : ℚ) * 1) := by nlinarith
+        exact le_trans (by norm_num) this
+
+theorem new_ok (sr : F32) : Ok (Lfo.new sr) := ⟨lfo_bits.1, lfo_bits.2.1, by simp [Lfo.new, PhaseAcc.new]⟩
+
+/-- **reachability**: whatever sequence of tick / set_frequency / set_phase / reset is applied to a new oscillator
+(with any f32 arguments), if no call panics the phase counter stays inside its 24 bits, so all the statements above
+apply to every state the oscillator can reach -/
+theorem reachable_ok (l : Lfo) (h : Ok l) (os : List Op) (l' : Lfo) (hr : runOps l os = some l') : Ok l' := by
+  induction os generalizing l with
+  | nil =>
+    have hr' : some l = some l' := hr
+    injection hr' with hr'; subst hr'; exact h
+  | cons o os ih =>
+    cases o with
+    | tick =>
+      have hr' : (match l.tick with | none => none | some l1 => runOps l1 os) = some l' := hr
+      cases ht : l.tick with
+      | none => rw [ht] at hr'; simp at hr'
+      | some l1 =>
+        rw [ht] at hr'
+        refine ih l1 ?_ hr'
+        simp only [Lfo.tick, PhaseAcc.tick] at ht
+        by_cases hov : l.pa.acc + l.pa.inc ≥ 2 ^ 32
+        · rw [if_pos hov] at ht; simp at ht
+        · rw [if_neg hov] at ht
+          simp only [Option.map_some, Option.some.injEq] at ht
+          subst ht
+          refine ⟨h.tb, h.ib, ?_⟩
+          show (l.pa.acc + l.pa.inc) % 2 ^ l.pa.totalBits < 2 ^ 24
+          rw [h.tb]; exact Nat.mod_lt _ (by norm_num)
+    | setFrequency f => exact ih (l.setFrequency f) ⟨h.tb, h.ib, h.acc⟩ hr
+    | setPhase p => exact ih (l.setPhase p) (setPhase_ok l h p) hr
+    | reset => exact ih l.reset ⟨h.tb, h.ib, by simp [Lfo.reset, PhaseAcc.reset]⟩ hr
+
+/-- non-vacuity: a concrete reachable state and its five shapes -/
+example : ((runOps (Lfo.new (ofBits 0x447a0000)) [.setFrequency (ofBits 0x437a0000), .tick]).map
+    fun l => (toBits (l.get .triangle), toBits (l.get .upSaw), toBits (l.get .square))) =
+    some (0x3f800000, 0xbf000000, 0x3f800000) := by decide +kernel
+
 end C10
